@@ -13,8 +13,9 @@ Each history carries the class the model puts it in (no-flow / agreeing-flow / s
 
 Correspondence tie (vlib/regen.py): the model `Goderive.Reload.regen` itself is RUN (driver op `regen`) on generated
 flow scenarios (harness/cmd/genregen) next to the real goderive, with the old file, from scratch and on the old
-sources; outcomes (exit kind, removed / generated functions with their result types) must be equal, and where the
-theorems' hypotheses hold (no stale flowing signature) the implementation must not differ from scratch."""
+sources; outcomes (exit kind, removed / generated functions with their parameter and result types) must be equal, and
+the implementation may differ from its own from-scratch result only where the model predicts exactly that (F7). A
+second family runs whole invocations over several packages (order by G/Order, packages by G/Reload.invocation)."""
 import hashlib
 import json
 import os
@@ -236,10 +237,13 @@ def run(rep):
     rep.cov["rule"] += ("; correspondence tie: G/Reload.regen run on generated flow scenarios (chains of 1-4 derive calls through "
                         "local / package-level variables and nested calls x old file in {absent, same, retyped, renamed type, extra / "
                         "missing functions, declarations cut out, all calls removed}) against goderive with the old file, from scratch "
-                        "and on the old sources; distinct also counts the scenarios where the model predicts a difference from scratch")
+                        "and on the old sources; invocations over 2-5 packages (import chains through unnamed packages without derive calls, "
+                        "path order against import order, every derived.gen.go absent) run twice, against G/Order + G/Reload.invocation; "
+                        "distinct also counts the scenarios where the model predicts a difference from scratch")
     rep.assumptions += ["regen tie: the plugin table `gen` of the model is measured on one-call packages (a plugin's answer depends only on "
-                        "its argument types); no two types of the scenario universe are assignable to each other; a call that waits for "
-                        "another derive call never bears a name a helper function could be given (.work/new-defects-regen.md)",
+                        "its argument types); no two types of the scenario universe are assignable to each other; the model has no helper "
+                        "functions: it relies on helpers never taking the name of a user call (F78; scenarios with waiting calls under "
+                        "bare-prefix names next to calls that ask for helpers of the same plugin exercise exactly that)",
                         "go/loader's tolerance of a broken derived.gen.go is the loader contract of the model (exercised, not proved)",
                         "the write itself (os.Create + two writes) is not atomic: truncated files are the crash states the next run must heal"]
     common.proof_part(rep, "C07", thorough_checker=(rep.tier == "thorough"))
@@ -379,6 +383,8 @@ def run(rep):
     finally:
         shutil.rmtree(root, ignore_errors=True)
 
+    from vlib import probes
+    probes.run(rep, "C07")
 
 def replay(rep, path):
     r = json.load(open(path))
